@@ -489,6 +489,9 @@ def eq_model(M, interp, a, b, node):
         return a.path == b.path
     if isinstance(a, ExtRef) != isinstance(b, ExtRef):
         ext, other = (a, b) if isinstance(a, ExtRef) else (b, a)
+        from .models import DType
+        if isinstance(other, DType):
+            return other == ext       # numpy: dtype == np.float64 compares with the dtype the object names (row 9)
         if other is None or isinstance(other, (bool, int, Fr, float, list, tuple, dict, set, FuncVal, ClassVal, Instance)):
             return False          # a library class / function / constant object is none of these
         if isinstance(other, str) and not ext.path.startswith(('numpy.', 'builtins.')):
